@@ -104,6 +104,7 @@ class Interp:
         self.join_depth = 0
         self.try_stack: list[list[str]] = []  # names catchable by enclosing handlers (oracle mode)
         self.call_stack: list = []
+        self.site_stack: list = []  # call sites (line, col) leading to the current activation
         self.loop_ids = 0
         self.calls_made: list[tuple[str, str]] = []  # (caller qualname, callee description)
         self.functions_entered: set[str] = set()
@@ -1129,7 +1130,11 @@ class Interp:
                 r = hook(f.info, bound, node)
                 if r is not None:
                     return r
-            return self.exec_function(f.info, bound, f.closure, f.info.cls)
+            self.site_stack.append((getattr(node, "lineno", 0), getattr(node, "col_offset", 0)))
+            try:
+                return self.exec_function(f.info, bound, f.closure, f.info.cls)
+            finally:
+                self.site_stack.pop()
         if isinstance(f, BoundV):
             return self.call_value(f.func, [f.self_obj] + list(args), kwargs, node, env)
         if isinstance(f, PartialV):
